@@ -124,6 +124,14 @@ def gen_document(ch: Choices, max_len: int = 5, allow_junk: bool = True, tok_pre
         if els[i].get('id') is not None:
             els[j]['id'] = els[i]['id']
             kinds.append('dup_id')
+        if n >= 4 and ch.flag(1, 2, 'doc.dup_id2'):
+            # a second duplicated id, of the other JSON type than the first
+            rest = [k for k in range(n) if k not in (i, j)]
+            a, b = rest[0], rest[1]
+            other = 'dup-b' if isinstance(els[i].get('id'), int) else 77
+            els[a]['id'] = other
+            els[b]['id'] = other
+            kinds.append('dup_id2')
     if shape == 'batch' and ch.flag(1, 10, 'doc.foreign_element'):
         els.insert(ch.draw(len(els) + 1, 'doc.foreign.pos'), ch.choice(F.NONOBJECT_ALPHABET, 'doc.foreign.value'))
         kinds.append('foreign')
@@ -155,7 +163,7 @@ def corrupt_text(ch: Choices, text: str) -> Tuple[str, str]:
 
 
 # --- instrumented middlewares / error handlers --------------------------------------------------------------------
-MW_KINDS = ['pass', 'short', 'rewrite_req', 'rewrite_resp']
+MW_KINDS = ['pass', 'short', 'rewrite_req', 'rewrite_resp', 'withhold']
 
 
 def _tok_of(request: Any) -> Any:
@@ -194,6 +202,7 @@ def _wrap_resp(idx: int, resp: Any) -> Any:
 
 SHORT_TRIGGER = 'none'       # a 'short' middleware answers requests for this method itself
 REWRITE_TRIGGER = 'pair'     # a 'rewrite_req' middleware turns this method into echo(tok, 'rewritten-<idx>')
+WITHHOLD_TRIGGER = 'slow'    # a 'withhold' middleware lets the request through but drops the reply (returns UNSET)
 
 
 def make_middleware(w: World, node: str, idx: int, kind: str, is_async: bool, plain: bool = False) -> Callable[..., Any]:
@@ -214,6 +223,8 @@ def make_middleware(w: World, node: str, idx: int, kind: str, is_async: bool, pl
                 resp = handler(request, context)
             if kind == 'rewrite_resp':
                 resp = _wrap_resp(idx, resp)
+            if kind == 'withhold' and request.method == WITHHOLD_TRIGGER:
+                resp = UNSET
             post(request, resp)
             return resp
         return mw
@@ -236,6 +247,8 @@ def make_middleware(w: World, node: str, idx: int, kind: str, is_async: bool, pl
             w.rec(node, 'mw.step', mw=idx, tok=tok)
         if kind == 'rewrite_resp':
             resp = _wrap_resp(idx, resp)
+        if kind == 'withhold' and request.method == WITHHOLD_TRIGGER:
+            resp = UNSET
         post(request, resp)
         return resp
 
@@ -321,7 +334,9 @@ def draw_config(ch: Choices, doc_len: int = 1, middlewares: bool = False, handle
             table[str(REPLACED_CODE_BASE + 1)] = [h('identity')]
             c = ch.choice(codes, 'srv.eh.code')
             table[str(c)] = [h(ch.choice(EH_KINDS, 'srv.eh.kind'))]
-        cfg['handlers'] = table
+        # the order in which the keys were put into the user's table must not matter
+        keys = ch.shuffle(sorted(table), 'srv.eh.key_order')
+        cfg['handlers'] = {k: table[k] for k in keys}
     return cfg
 
 
@@ -372,11 +387,18 @@ class ServerUnderTest:
 
 
 # --- shared oracles ---------------------------------------------------------------------------------------------------------
+def _safe_str(e: BaseException) -> str:
+    try:
+        return str(e)
+    except Exception:  # noqa: BLE001 - an exception that cannot be printed
+        return '<unprintable>'
+
+
 def check_wellformed(w: World, prop: str, text: str, outcome: Tuple[str, Any], ctx: Dict[str, Any]) -> Optional[Any]:
     """C01 invariant at the server seam.  Returns the parsed reply document (None for no reply)."""
     if outcome[0] == 'raise':
         e = outcome[1]
-        w.violate(f'{prop}.raises', f'dispatch raised {type(e).__name__}: {str(e)[:100]} for {text[:80]!r}',
+        w.violate(f'{prop}.raises', f'dispatch raised {type(e).__name__}: {_safe_str(e)[:100]} for {text[:80]!r}',
                   exc=type(e).__name__, **ctx)
         return None
     reply = outcome[1]
